@@ -40,6 +40,9 @@ def main():
         if prop in ("C15", "C17", "C19"):
             import props_passes
             return props_passes.run(prop, tier)
+        if prop in ("C11", "C12", "C16"):
+            import props_streams
+            return props_streams.run(prop, tier)
         print("unknown property", prop)
         return 2
     except (common.MachineryError, tlcrun.TLCError) as e:
